@@ -120,27 +120,50 @@ def cmd_confirm(name):
         shutil.rmtree(wt, ignore_errors=True)
 
 
-def cmd_run(name, tier="quick"):
+def cmd_run(name, tier="quick", in_repo=False):
+    """Run the property's check against the seeded change.  Default: the patch is applied to a
+    scratch worktree of /repo HEAD and the check is pointed at it with CNFGEN_REPO (safe while other
+    runs use /repo); with --in-repo the patch is applied to /repo itself and undone afterwards."""
     d = os.path.join(SEEDED, name)
     meta = load_meta(name)
     prop = meta["property"]
-    st = sh(["git", "-C", REPO, "status", "--porcelain"])
-    if st.stdout.strip():
-        print("refusing: /repo has uncommitted changes")
-        sys.exit(2)
-    ap = sh(["git", "-C", REPO, "apply", os.path.join(d, "patch.diff")])
+    env = dict(os.environ)
+    wt = None
+    if in_repo:
+        st = sh(["git", "-C", REPO, "status", "--porcelain"])
+        if st.stdout.strip():
+            print("refusing: /repo has uncommitted changes")
+            sys.exit(2)
+        target = REPO
+    else:
+        wt = "/tmp/sr_%s" % name
+        sh(["git", "-C", REPO, "worktree", "remove", "--force", wt])
+        r = sh(["git", "-C", REPO, "worktree", "add", "--detach", wt, "HEAD"])
+        if r.returncode:
+            print(r.stdout)
+            return
+        target = wt
+        env["CNFGEN_REPO"] = wt
+    ap = sh(["git", "-C", target, "apply", os.path.join(d, "patch.diff")])
     if ap.returncode:
-        print("patch does not apply to /repo:", ap.stdout)
+        print("patch does not apply:", ap.stdout)
+        if wt:
+            sh(["git", "-C", REPO, "worktree", "remove", "--force", wt])
         return
     try:
         r = subprocess.run([os.path.join(VERIF, "check"), prop, "--tier", tier], cwd=VERIF, stdout=subprocess.PIPE,
-                           stderr=subprocess.STDOUT, text=True, timeout=7200)
+                           stderr=subprocess.STDOUT, text=True, timeout=7200, env=env)
     finally:
-        sh(["git", "-C", REPO, "checkout", "--", "."])
+        if in_repo:
+            sh(["git", "-C", REPO, "checkout", "--", "."])
+        else:
+            sh(["git", "-C", REPO, "worktree", "remove", "--force", wt])
+            shutil.rmtree(wt, ignore_errors=True)
     viol = [l for l in r.stdout.splitlines() if l.startswith("VIOLATION")]
     clauses = [l for l in r.stdout.splitlines() if l.startswith("failing clauses:")]
     meta.setdefault("checks", {})[tier] = {
-        "check": "./check %s --tier %s" % (prop, tier), "exit": r.returncode, "violations": len(viol),
+        "check": "./check %s --tier %s" % (prop, tier), "applied_to": "/repo" if in_repo else "scratch worktree (CNFGEN_REPO)",
+        "exit": r.returncode, "violations": len(viol),
         "first_violation": viol[0] if viol else "", "failing_clauses": clauses[0][len("failing clauses: "):] if clauses else "",
         "caught": r.returncode == 1 and bool(viol)}
     save_meta(name, meta)
@@ -183,6 +206,6 @@ if __name__ == "__main__":
     elif a[0] == "run":
         tier = a[a.index("--tier") + 1] if "--tier" in a else "quick"
         for n in names(a[1]):
-            cmd_run(n, tier)
+            cmd_run(n, tier, "--in-repo" in a)
     elif a[0] == "table":
         cmd_table()
